@@ -97,6 +97,7 @@ bool LoadScenario(const js::J& j, Scenario* s, string* err) {
       op.cfg.allow_interrupt = oj["interrupt"].boolean(false);
       op.crash = oj["crash"].boolean(false);
       op.expect_error = oj["expect_error"].boolean(false);
+      op.canonical_args = oj["canonical_args"].strs();
       op.cfg.subsets = oj["subsets"].boolean(true);
       for (auto& e : oj["edits_during"].a)
         op.cfg.edits_during.push_back(make_tuple(e["when"].str(), e["path"].str(), e["content"].str()));
